@@ -24,7 +24,7 @@ ASSUMPTIONS = ['float sums compared with tolerance 1e-6*max(1, sum|amount|) beca
 REQUIRED_CLASSES = ['two_special_tags', 'special_tag_nonlower', 'zero_amount', 'negative_amount', 'split_same_source_name']
 
 SPECIAL = ['income', 'investment', 'transfer']
-ORD_TAGS = ['recurring', 'food', 'Business', 'INCOMES', 'transfers', 'invest', 'x']
+ORD_TAGS = ['recurring', 'food', 'Business', 'INCOMES', 'transfers', 'invest', 'x', 'refund', 'Refund', 'REFUND']
 BUCKETS = ['income', 'investment', 'transfer_in', 'transfer_out', 'spending', 'credits']
 STAT_KEYS = {'income': 'income_total', 'investment': 'investment_total', 'transfer_in': 'transfers_in',
              'transfer_out': 'transfers_out', 'spending': 'spending_total', 'credits': 'credits_total'}
